@@ -11,422 +11,54 @@
 #[macro_use]
 mod test_extensions;
 
-use std::collections::BTreeMap;
-use std::path::PathBuf;
-use std::sync::Arc;
+#[path = "../aggkit.rs"]
+mod aggkit;
 
-use async_trait::async_trait;
+use std::path::PathBuf;
+
+use aggkit::{Harness, NSIGNERS};
 use mithril_aggregator::ServeCommandConfiguration;
 use mithril_common::StdResult;
-use mithril_common::certificate_chain::{CertificateRetriever, CertificateRetrieverError, CertificateVerifier, MithrilCertificateVerifier};
-use mithril_common::entities::{
-    BlockNumber, Certificate, ChainPoint, Epoch, ProtocolParameters, SignedEntityType, SignedEntityTypeDiscriminants,
-    SignerWithStake, SingleSignature, SlotNumber, TimePoint,
-};
-use mithril_common::messages::CertificateMessage;
-use mithril_common::protocol::{SignerBuilder, ToMessage};
-use mithril_common::test::builder::{MithrilFixture, MithrilFixtureBuilder};
+use mithril_common::entities::{BlockNumber, ChainPoint, Epoch, ProtocolParameters, SignedEntityTypeDiscriminants, SlotNumber, TimePoint};
+use mithril_common::test::builder::MithrilFixtureBuilder;
 use test_extensions::RuntimeTester;
 use vh_core::{Args, ChaCha20Rng, Trace, Value, below, json, read_ndjson, rng};
 
-const NSIGNERS: usize = 4;
+// the runtime wiring, the stimuli (`Harness::act`) and the projection (`Harness::project`) are in ../aggkit.rs,
+// shared with c14_follower.rs
 
-/// certificates as a client gets them: message service -> JSON text -> CertificateMessage -> Certificate
-struct PublicRetriever {
-    message_service: Arc<dyn mithril_aggregator::services::MessageService>,
-}
-
-#[async_trait]
-impl CertificateRetriever for PublicRetriever {
-    async fn get_certificate_details(&self, hash: &str) -> Result<Certificate, CertificateRetrieverError> {
-        let msg = self
-            .message_service
-            .get_certificate_message(hash)
-            .await
-            .map_err(|e| CertificateRetrieverError(e))?
-            .ok_or_else(|| CertificateRetrieverError(anyhow::anyhow!("certificate {hash} not served")))?;
-        let text = serde_json::to_string(&msg).map_err(|e| CertificateRetrieverError(e.into()))?;
-        let back: CertificateMessage = serde_json::from_str(&text).map_err(|e| CertificateRetrieverError(e.into()))?;
-        back.try_into().map_err(CertificateRetrieverError)
-    }
-}
-
-struct Harness {
-    tester: RuntimeTester,
-    config: ServeCommandConfiguration,
-    fixture: MithrilFixture,
-    params: ProtocolParameters,
-    db_path: PathBuf,
-    /// recorded[e] = indexes of the fixture signers registered under recording epoch e
-    recorded: BTreeMap<u64, Vec<usize>>,
-    /// short ids for certificates, in order of first appearance
-    cert_ids: BTreeMap<String, usize>,
-    verified: BTreeMap<String, bool>,
-    sigma_ids: BTreeMap<String, usize>,
-}
-
-fn disc_of(name: &str) -> SignedEntityTypeDiscriminants {
-    match name {
-        "MSD" => SignedEntityTypeDiscriminants::MithrilStakeDistribution,
-        "CSD" => SignedEntityTypeDiscriminants::CardanoStakeDistribution,
-        _ => SignedEntityTypeDiscriminants::CardanoDatabase,
-    }
-}
-
-fn entity_name(t: &SignedEntityType) -> String {
-    let short = match t {
-        SignedEntityType::MithrilStakeDistribution(_) => "MSD",
-        SignedEntityType::CardanoStakeDistribution(_) => "CSD",
-        SignedEntityType::CardanoDatabase(_) => "CDB",
-        SignedEntityType::CardanoTransactions(..) => "CTX",
-        SignedEntityType::CardanoBlocksTransactions(..) => "CBT",
+async fn new_harness(dir: PathBuf) -> Harness {
+    let params = ProtocolParameters { k: 2, m: 30, phi_f: 0.95 };
+    let _ = std::fs::remove_dir_all(&dir);
+    std::fs::create_dir_all(&dir).unwrap();
+    let config = ServeCommandConfiguration {
+        protocol_parameters: Some(params.clone()),
+        signed_entity_types: Some(format!(
+            "{},{}",
+            SignedEntityTypeDiscriminants::CardanoStakeDistribution,
+            SignedEntityTypeDiscriminants::CardanoDatabase
+        )),
+        data_stores_directory: dir.join("stores"),
+        ..ServeCommandConfiguration::new_sample(dir.join("sample"))
     };
-    format!("{}:{}", short, t.get_json_beacon().unwrap_or_default().replace('"', ""))
-}
-
-impl Harness {
-    async fn new(dir: PathBuf) -> Harness {
-        let params = ProtocolParameters { k: 2, m: 30, phi_f: 0.95 };
-        let _ = std::fs::remove_dir_all(&dir);
-        std::fs::create_dir_all(&dir).unwrap();
-        let config = ServeCommandConfiguration {
-            protocol_parameters: Some(params.clone()),
-            signed_entity_types: Some(format!(
-                "{},{}",
-                SignedEntityTypeDiscriminants::CardanoStakeDistribution,
-                SignedEntityTypeDiscriminants::CardanoDatabase
-            )),
-            data_stores_directory: dir.join("stores"),
-            ..ServeCommandConfiguration::new_sample(dir.join("sample"))
-        };
-        std::fs::create_dir_all(dir.join("stores")).unwrap();
-        let start = TimePoint {
-            epoch: Epoch(1),
-            immutable_file_number: 1,
-            chain_point: ChainPoint { slot_number: SlotNumber(10), block_number: BlockNumber(100), block_hash: "block_hash-100".to_string() },
-        };
-        let mut tester = RuntimeTester::build(start, config.clone()).await;
-        let fixture = MithrilFixtureBuilder::default().with_signers(NSIGNERS).with_protocol_parameters(params.clone()).build();
-        tester.init_state_from_fixture(&fixture).await.unwrap();
-        tester.register_genesis_certificate(&fixture).await.unwrap();
-        let mut recorded = BTreeMap::new();
-        // init_state_from_fixture_for_genesis stores the fixture signers for the genesis epoch window
-        // init_state_from_fixture_for_genesis stores the fixture signers for the retrieval epoch of the
-        // genesis epoch and for the genesis epoch itself
-        for e in 0..=1u64 {
-            recorded.insert(e, (0..NSIGNERS).collect());
-        }
-        let db_path = dir.join("stores").join("aggregator.sqlite3");
-        Harness { tester, config, fixture, params, db_path, recorded, cert_ids: BTreeMap::new(), verified: BTreeMap::new(), sigma_ids: BTreeMap::new() }
+    std::fs::create_dir_all(dir.join("stores")).unwrap();
+    let start = TimePoint {
+        epoch: Epoch(1),
+        immutable_file_number: 1,
+        chain_point: ChainPoint { slot_number: SlotNumber(10), block_number: BlockNumber(100), block_hash: "block_hash-100".to_string() },
+    };
+    let mut tester = RuntimeTester::build(start, config.clone()).await;
+    let fixture = MithrilFixtureBuilder::default().with_signers(NSIGNERS).with_protocol_parameters(params.clone()).build();
+    tester.init_state_from_fixture(&fixture).await.unwrap();
+    tester.register_genesis_certificate(&fixture).await.unwrap();
+    let db_path = dir.join("stores").join("aggregator.sqlite3");
+    let mut h = Harness::from_parts(tester, config, fixture, params, db_path);
+    // init_state_from_fixture_for_genesis stores the fixture signers for the retrieval epoch of the
+    // genesis epoch and for the genesis epoch itself
+    for e in 0..=1u64 {
+        h.recorded.insert(e, (0..NSIGNERS).collect());
     }
-
-    fn signers_of(&self, set: &[usize]) -> Vec<SignerWithStake> {
-        set.iter().map(|i| self.fixture.signers_fixture()[*i].signer_with_stake.clone()).collect()
-    }
-
-    fn builder_for(&self, set: &[usize]) -> Option<SignerBuilder> {
-        SignerBuilder::new(&self.signers_of(set), &self.params).ok()
-    }
-
-    fn avk_hex_of(&self, set: &[usize]) -> Option<String> {
-        let b = self.builder_for(set)?;
-        let avk = b.compute_aggregate_verification_key();
-        mithril_common::crypto_helper::ProtocolKey::new(avk.to_concatenation_aggregate_verification_key().to_owned()).to_json_hex().ok()
-    }
-
-    /// party `who` signs `message` as a member of the registration set in force at `epoch`
-    fn sign_as(&self, who: usize, epoch: u64, message: &impl ToMessage) -> Option<SingleSignature> {
-        let set = self.recorded.get(&(epoch.checked_sub(1)?))?;
-        if !set.contains(&who) {
-            // not registered for this epoch: sign as if the whole fixture were registered (an invalid contribution)
-            return self.fixture.signers_fixture()[who].sign(message);
-        }
-        let b = self.builder_for(set)?;
-        let f = &self.fixture.signers_fixture()[who];
-        let signer = b.restore_signer_from_initializer(f.signer_with_stake.party_id.clone(), f.protocol_initializer.clone()).ok()?;
-        signer.sign(message).ok().flatten()
-    }
-
-    fn party_index(&self, party_id: &str) -> i64 {
-        self.fixture.signers_fixture().iter().position(|f| f.signer_with_stake.party_id == party_id).map(|i| i as i64).unwrap_or(-1)
-    }
-
-    // ---------------------------------------------------------------------------------------
-    // actions
-    // ---------------------------------------------------------------------------------------
-    async fn act(&mut self, a: &Value) -> Value {
-        let name = a["a"].as_str().unwrap();
-        match name {
-            "Tick" => match self.tester.cycle().await {
-                Ok(()) => json!({"ok": true}),
-                Err(e) => {
-                    let t = format!("{e:#}");
-                    json!({"ok": false, "err": t.chars().skip(t.find("message =").unwrap_or(0)).take(260).collect::<String>()})
-                }
-            },
-            "EpochUp" => {
-                for _ in 0..a["n"].as_u64().unwrap_or(1) {
-                    self.tester.increase_epoch().await.unwrap();
-                }
-                json!({"ok": true})
-            }
-            "ImmUp" => {
-                self.tester.increase_immutable_number().await.unwrap();
-                json!({"ok": true})
-            }
-            "Register" => {
-                let who: Vec<usize> = a["who"].as_array().unwrap().iter().map(|v| v.as_u64().unwrap() as usize).collect();
-                let epoch = *self.tester.observer.current_epoch().await;
-                let fixtures: Vec<_> = who.iter().map(|i| self.fixture.signers_fixture()[*i].clone()).collect();
-                let r = self.tester.register_signers(&fixtures).await;
-                if r.is_ok() {
-                    let e = self.recorded.entry(epoch + 1).or_default();
-                    for w in who {
-                        if !e.contains(&w) {
-                            e.push(w);
-                            e.sort();
-                        }
-                    }
-                }
-                json!({"ok": r.is_ok(), "err": r.err().map(|e| format!("{e:#}").chars().take(160).collect::<String>()).unwrap_or_default()})
-            }
-            "Sign" => {
-                let disc = disc_of(a["entity"].as_str().unwrap());
-                let who = a["who"].as_u64().unwrap() as usize;
-                let label = a["label"].as_u64().map(|l| l as usize).unwrap_or(who);
-                let variant = a["variant"].as_str().unwrap_or("ok");
-                let Ok(set) = self.tester.observer.build_current_signed_entity_type(disc).await else {
-                    return json!({"ok": false, "err": "no current signed entity type"});
-                };
-                let Ok(message) = self.tester.dependencies.signable_builder_service.compute_protocol_message(set.clone()).await else {
-                    return json!({"ok": false, "err": "cannot compute protocol message"});
-                };
-                let epoch = *set.get_epoch_when_signed_entity_type_is_signed();
-                let Some(mut sig) = self.sign_as(who, epoch, &message) else {
-                    return json!({"ok": false, "err": "signer lost every lottery"});
-                };
-                // what the wire carries: the party id is a field the submitter fills in
-                sig.party_id = self.fixture.signers_fixture()[label].signer_with_stake.party_id.clone();
-                // the HTTP route marks a signature "authenticated" when it verifies for the current or next stake
-                // distribution (slot-based key lookup): any genuine signature of a registered party is
-                // -- also a signature made for ANOTHER message, because the route checks it against the signed
-                // message the submitter names, and the message-queue consumer sets the flag unconditionally
-                if a["auth"].as_bool().unwrap_or(true) {
-                    sig.authentication_status = mithril_common::entities::SingleSignatureAuthenticationStatus::Authenticated;
-                }
-                if variant == "bad" {
-                    // a signature for another message
-                    let mut other = message.clone();
-                    other.set_message_part(mithril_common::entities::ProtocolMessagePartKey::SnapshotDigest, "deadbeef".into());
-                    if let Some(s) = self.sign_as(who, epoch, &other) {
-                        sig.signature = s.signature;
-                        sig.won_indexes = s.won_indexes;
-                    }
-                }
-                let r = self.tester.dependencies.certifier_service.register_single_signature(&set, &sig).await;
-                json!({"ok": r.is_ok(), "entity": entity_name(&set), "status": r.as_ref().map(|s| format!("{s:?}")).unwrap_or_default(),
-                       "err": r.err().map(|e| format!("{e:#}").chars().take(160).collect::<String>()).unwrap_or_default()})
-            }
-            "Expire" => {
-                let disc = disc_of(a["entity"].as_str().unwrap());
-                // an expiry date in the past, written straight into the open_message row of the current beacon of
-                // that type (the repository helper cannot address a CardanoStakeDistribution row): the next tick
-                // marks the open message expired
-                let Ok(set) = self.tester.observer.build_current_signed_entity_type(disc).await else {
-                    return json!({"ok": false});
-                };
-                let conn = sqlite::open(&self.db_path).unwrap();
-                let past = (chrono::Utc::now() - chrono::Duration::seconds(5)).to_rfc3339();
-                let sql = format!(
-                    "update open_message set expires_at = '{}' where signed_entity_type_id = {} and beacon = '{}' and is_certified = 0",
-                    past,
-                    set.index(),
-                    set.get_json_beacon().unwrap_or_default().replace('\'', "")
-                );
-                let ok = conn.execute(sql).is_ok() && conn.change_count() > 0;
-                json!({"ok": ok})
-            }
-            "Crash" => {
-                // a process stop at a named persistence point: the hooked function returns an error there,
-                // then every in-memory object is dropped and rebuilt from the database
-                let at = a["at"].as_str().unwrap().to_string();
-                let hit: Arc<std::sync::Mutex<Option<String>>> = Arc::new(std::sync::Mutex::new(None));
-                let hit2 = hit.clone();
-                let at2 = at.clone();
-                mithril_common::verif_hooks::install(Some(Arc::new(move |name: &str, args: &[(&str, String)]| {
-                    if name == at2 && hit2.lock().unwrap().is_none() {
-                        *hit2.lock().unwrap() = Some(args.iter().find(|(k, _)| *k == "entity").map(|(_, v)| v.clone()).unwrap_or_default());
-                        mithril_common::verif_hooks::Action::Fail
-                    } else {
-                        mithril_common::verif_hooks::Action::Continue
-                    }
-                })));
-                let r = self.tester.cycle().await;
-                for _ in 0..20 {
-                    tokio::task::yield_now().await;
-                }
-                tokio::time::sleep(std::time::Duration::from_millis(3)).await;
-                mithril_common::verif_hooks::install(None);
-                let hit = hit.lock().unwrap().clone();
-                // name the interrupted entity the way the projection does
-                let mut entity = String::new();
-                if let Some(display) = &hit {
-                    for disc in [SignedEntityTypeDiscriminants::MithrilStakeDistribution, SignedEntityTypeDiscriminants::CardanoStakeDistribution, SignedEntityTypeDiscriminants::CardanoDatabase] {
-                        if let Ok(t) = self.tester.observer.build_current_signed_entity_type(disc).await {
-                            if t.to_string() == *display {
-                                entity = entity_name(&t);
-                            }
-                        }
-                    }
-                }
-                self.tester.rebuild(self.config.clone()).await;
-                self.verified.clear();
-                json!({"ok": r.is_ok(), "hit": hit.is_some(), "at": at, "entity": entity})
-            }
-            "Restart" => {
-                self.tester.rebuild(self.config.clone()).await;
-                self.verified.clear(); // everything is re-verified after a restart
-                json!({"ok": true})
-            }
-            other => panic!("unknown action {other}"),
-        }
-    }
-
-    // ---------------------------------------------------------------------------------------
-    // projection
-    // ---------------------------------------------------------------------------------------
-    async fn project(&mut self) -> Value {
-        let conn = sqlite::open(&self.db_path).unwrap();
-        let type_name = |id: i64| match id {
-            0 => "MSD",
-            1 => "CSD",
-            2 => "CIF",
-            3 => "CTX",
-            4 => "CDB",
-            _ => "CBT",
-        };
-        // --- certificates, in creation order
-        let mut certs = vec![];
-        let rows: Vec<(String, Option<String>, i64, i64, String)> = conn
-            .prepare("select certificate_id, parent_certificate_id, cast(epoch as integer), cast(signed_entity_type_id as integer), cast(signed_entity_beacon as text) from certificate order by rowid")
-            .unwrap()
-            .into_iter()
-            .map(|r| {
-                let r = r.unwrap();
-                (r.read::<&str, _>(0).to_string(), r.read::<Option<&str>, _>(1).map(|s| s.to_string()), r.read::<i64, _>(2), r.read::<i64, _>(3), r.read::<&str, _>(4).to_string())
-            })
-            .collect();
-        let genesis_verifier = Arc::new(self.tester.genesis_signer.create_verifier());
-        for (hash, parent, epoch, type_id, beacon) in rows {
-            let n = self.cert_ids.len();
-            let id = *self.cert_ids.entry(hash.clone()).or_insert(n + 1);
-            let cert: Certificate = self.tester.dependencies.certificate_repository.get_certificate(&hash).await.unwrap().unwrap();
-            let kind = if cert.is_genesis() { "genesis" } else { "std" };
-            // the certificate verifies with its whole chain, through the public path a client uses
-            if !self.verified.contains_key(&hash) {
-                let retriever = Arc::new(PublicRetriever { message_service: self.tester.dependencies.message_service.clone() });
-                let verifier = MithrilCertificateVerifier::new(slog_scope::logger(), retriever.clone(), genesis_verifier.clone());
-                let ok = match retriever.get_certificate_details(&hash).await {
-                    Ok(c) => verifier.verify_certificate_chain(c).await.is_ok(),
-                    Err(_) => false,
-                };
-                self.verified.insert(hash.clone(), ok);
-            }
-            let avk_hex = cert.aggregate_verification_key.to_json_hex().unwrap_or_default();
-            let avk_rec_epoch = self.recorded.iter().filter(|(_, set)| self.avk_hex_of(set).as_deref() == Some(&avk_hex)).map(|(e, _)| *e as i64).collect::<Vec<_>>();
-            let signers: Vec<i64> = cert.metadata.signers.iter().map(|s| self.party_index(&s.party_id)).collect();
-            certs.push(json!({
-                "id": id, "parent": parent.as_ref().and_then(|p| self.cert_ids.get(p)).copied().unwrap_or(0),
-                "epoch": epoch, "kind": kind, "entity": format!("{}:{}", type_name(type_id), beacon.replace('"', "")),
-                "signers": signers, "avk_rec_epochs": avk_rec_epoch, "verifies": self.verified[&hash],
-            }));
-        }
-        // --- open messages
-        let mut open = vec![];
-        let oms: Vec<(String, i64, String, i64, i64, i64, String)> = conn
-            .prepare("select open_message_id, cast(signed_entity_type_id as integer), cast(beacon as text), cast(is_certified as integer), cast(is_expired as integer), cast(epoch_setting_id as integer), coalesce(cast(expires_at as text), '') from open_message order by rowid")
-            .unwrap()
-            .into_iter()
-            .map(|r| {
-                let r = r.unwrap();
-                (r.read::<&str, _>(0).to_string(), r.read::<i64, _>(1), r.read::<&str, _>(2).to_string(), r.read::<i64, _>(3), r.read::<i64, _>(4), r.read::<i64, _>(5), r.read::<&str, _>(6).to_string())
-            })
-            .collect();
-        let mut om_entity: BTreeMap<String, (String, i64)> = BTreeMap::new();
-        let now = chrono::Utc::now();
-        for (id, type_id, beacon, certified, expired, epoch, expires_at) in &oms {
-            let name = format!("{}:{}", type_name(*type_id), beacon.replace('"', ""));
-            om_entity.insert(id.clone(), (name.clone(), *epoch));
-            // the ground truth the `is_expired` flag stands for: the expiry date of the row has passed
-            let past_expiry = chrono::DateTime::parse_from_rfc3339(expires_at).map(|t| t < now).unwrap_or(false);
-            open.push(json!({"entity": name, "certified": *certified != 0, "expired": *expired != 0, "past_expiry": past_expiry, "epoch": epoch}));
-        }
-        // --- single signatures: under which label, and whose registered key really produced them
-        let mut sigs = vec![];
-        let rows: Vec<(String, String, i64, String, String)> = conn
-            .prepare("select open_message_id, signer_id, cast(registration_epoch_setting_id as integer), cast(lottery_indexes as text), cast(signature as text) from single_signature order by rowid")
-            .unwrap()
-            .into_iter()
-            .map(|r| {
-                let r = r.unwrap();
-                (r.read::<&str, _>(0).to_string(), r.read::<&str, _>(1).to_string(), r.read::<i64, _>(2), r.read::<&str, _>(3).to_string(), r.read::<&str, _>(4).to_string())
-            })
-            .collect();
-        let om_msgs: BTreeMap<String, String> = conn
-            .prepare("select open_message_id, cast(protocol_message as text) from open_message")
-            .unwrap()
-            .into_iter()
-            .map(|r| {
-                let r = r.unwrap();
-                (r.read::<&str, _>(0).to_string(), r.read::<&str, _>(1).to_string())
-            })
-            .collect();
-        for (om_id, signer_id, reg_epoch, idx_json, sig_hex) in rows {
-            let (entity, om_epoch) = om_entity.get(&om_id).cloned().unwrap_or(("?".into(), 0));
-            let n = self.sigma_ids.len();
-            let sigma = *self.sigma_ids.entry(sig_hex.clone()).or_insert(n + 1);
-            let owner = self.owner_of(&sig_hex, &idx_json, om_msgs.get(&om_id).map(|s| s.as_str()).unwrap_or(""), om_epoch as u64);
-            sigs.push(json!({"entity": entity, "label": self.party_index(&signer_id), "reg_epoch": reg_epoch, "owner": owner, "sigma": sigma}));
-        }
-        // --- signed entities (artifacts)
-        let mut arts = vec![];
-        for r in conn.prepare("select cast(signed_entity_type_id as integer), cast(beacon as text), certificate_id from signed_entity order by rowid").unwrap().into_iter() {
-            let r = r.unwrap();
-            let name = format!("{}:{}", type_name(r.read::<i64, _>(0)), r.read::<&str, _>(1).replace('"', ""));
-            arts.push(json!({"entity": name, "cert": self.cert_ids.get(r.read::<&str, _>(2)).copied().unwrap_or(0)}));
-        }
-        let nbuffered = conn
-            .prepare("select count(*) from buffered_single_signature")
-            .ok()
-            .and_then(|st| st.into_iter().next())
-            .and_then(|r| r.ok())
-            .map(|r| r.read::<i64, _>(0))
-            .unwrap_or(0);
-        let tp = self.tester.observer.current_time_point().await;
-        json!({"state": self.tester.runtime.state_label(), "epoch": *tp.epoch, "imm": tp.immutable_file_number,
-               "certs": certs, "open": open, "sigs": sigs, "arts": arts, "buffered": nbuffered})
-    }
-
-    /// index of the fixture party whose registered key verifies this stored signature (-1: nobody's)
-    fn owner_of(&self, sig_hex: &str, idx_json: &str, protocol_message_json: &str, om_epoch: u64) -> i64 {
-        use mithril_common::crypto_helper::ProtocolSingleSignature;
-        let Ok(psig) = ProtocolSingleSignature::from_json_hex(sig_hex) else { return -1 };
-        let Ok(pm) = serde_json::from_str::<mithril_common::entities::ProtocolMessage>(protocol_message_json) else { return -1 };
-        let _ = idx_json;
-        let Some(set) = om_epoch.checked_sub(1).and_then(|e| self.recorded.get(&e)) else { return -1 };
-        let Some(b) = self.builder_for(set) else { return -1 };
-        let avk = b.compute_aggregate_verification_key();
-        let msg = pm.to_message();
-        let stm_params: mithril_stm::Parameters = self.params.clone().into();
-        for q in set {
-            let s = &self.fixture.signers_fixture()[*q].signer_with_stake;
-            let vk = mithril_stm::VerificationKeyProofOfPossessionForConcatenation::from(s.verification_key_for_concatenation.to_owned()).vk;
-            if psig.verify(&stm_params, &vk, &s.stake, &avk, msg.as_bytes()).is_ok() {
-                return *q as i64;
-            }
-        }
-        -1
-    }
+    h
 }
 
 fn random_schedule(r: &mut ChaCha20Rng, len: usize) -> Vec<Value> {
@@ -439,7 +71,21 @@ fn random_schedule(r: &mut ChaCha20Rng, len: usize) -> Vec<Value> {
     for _ in 0..len {
         let a = match below(r, 20) {
             0..=7 => json!({"a":"Tick"}),
-            8..=11 => {
+            8 => {
+                // a consumed batch (message-queue path): 2-4 submissions for one entity, refused ones mixed in
+                let ent = ["MSD", "CSD", "CDB"][below(r, 3) as usize];
+                let n = 2 + below(r, 3);
+                let items: Vec<Value> = (0..n)
+                    .map(|_| {
+                        let who = below(r, NSIGNERS as u64);
+                        let label = if below(r, 5) == 0 { below(r, NSIGNERS as u64) } else { who };
+                        let variant = if below(r, 3) == 0 { "bad" } else { "ok" };
+                        json!({"entity": ent, "who": who, "label": label, "variant": variant})
+                    })
+                    .collect();
+                json!({"a":"SignBatch","via":"dmq","items": items})
+            }
+            9..=11 => {
                 let who = below(r, NSIGNERS as u64);
                 let label = if below(r, 6) == 0 { below(r, NSIGNERS as u64) } else { who };
                 let variant = if below(r, 8) == 0 { "bad" } else { "ok" };
@@ -485,7 +131,7 @@ fn main() {
     let mut certs_total = 0usize;
     for (si, schedule) in schedules.iter().enumerate() {
         rt.block_on(async {
-            let mut h = Harness::new(work.join(format!("run{si}"))).await;
+            let mut h = new_harness(work.join(format!("run{si}"))).await;
             let obs = h.project().await;
             trace.emit(json!({"ev":"Start","obs":obs,"nsigners":NSIGNERS,"k":h.params.k}));
             for a in schedule {
